@@ -815,7 +815,22 @@ def t_continue_flag(facts, res, tier):
     # (2) inheriting pushes
     for fn in gen_fns(facts):
         pushes = [n for n in walk(fn["body"]) if n.get("k") == "mcall" and n["method"] == "push" and expr_text(n["recv"]) == "self.loops"]
-        inherits = [n for n in pushes if n["args"] and n["args"][0].get("k") == "tuple" and n["args"][0]["elems"] and re.match(r"^\w+\.0(\.clone\(\))?$", expr_text(n["args"][0]["elems"][0]))]
+        def inherits_label(n):
+            if not (n["args"] and n["args"][0].get("k") == "tuple" and n["args"][0]["elems"]):
+                return False
+            e0 = expr_text(n["args"][0]["elems"][0])
+            if re.match(r"^\w+\.0(\.clone\(\))?$", e0):
+                return True
+            m0 = re.match(r"^(\w+)(\.clone\(\))?$", e0)
+            if m0:
+                # a local computed from the loop stack's continue label
+                for l2 in walk(fn["body"]):
+                    if l2.get("k") == "let" and l2.get("init") is not None and m0.group(1) in pat_text(l2["pat"]):
+                        it = expr_text(l2["init"]).replace(" ", "")
+                        if "self.loops" in it and ".0" in it:
+                            return True
+            return False
+        inherits = [n for n in pushes if inherits_label(n)]
         if not inherits:
             continue
         key = "T-CONTINUE-FLAG:propagate:%s" % fn["name"]
@@ -832,6 +847,28 @@ def t_continue_flag(facts, res, tier):
             ok = True
         if not ok:
             res.fail(key, facts.where(fn, inherits[0]), "%s pushes a loops entry that inherits the enclosing continue label but drops the entry's `continue seen` mark when it pops: a `continue` inside it leaves the enclosing do-while unaware and its `.dowhilecondition` label is never emitted" % fn["name"])
+    # (2b) the mark is only ever raised: an assignment of anything but the literal `true` can clear a mark that an
+    # earlier `continue` of the same loop has set
+    nflag = 0
+    for fn in gen_fns(facts):
+        for n in walk(fn["body"]):
+            if n.get("k") in ("assign", "assignop") and expr_text(n["l"]).replace(" ", "").endswith(".2"):
+                lt = expr_text(n["l"]).replace(" ", "")
+                if "loops" not in lt and not re.match(r"^\w+\.2$", lt):
+                    continue
+                if re.match(r"^\w+\.2$", lt):
+                    # a binder of an entry of the loop stack?
+                    bt = expr_text(fn["body"]).replace(" ", "")
+                    v = lt.split(".")[0]
+                    if not re.search(r"Some\(%s\)=self\.loops\.last_mut\(\)|%s=self\.loops\.last_mut\(\)" % (v, v), bt):
+                        continue
+                nflag += 1
+                key = "T-CONTINUE-FLAG:raise-only:%s" % fn["name"]
+                res.inst(key, True, {"assignment": expr_text(n)[:60]})
+                rt = expr_text(n["r"]).replace(" ", "")
+                if n.get("k") == "assign" and rt != "true":
+                    res.fail(key, facts.where(fn, n), "%s assigns the loop's `continue seen` mark a computed value (`%s`): when that value is false a mark set by an earlier "
+                             "`continue` of the same loop is cleared and the do-while's continue label is not emitted although a jump to it exists" % (fn["name"], expr_text(n)[:60]))
     # (3) the do-while defines the label exactly when marked
     dw = facts.fn("generate_do_while", GEN_QUAL)
     key = "T-CONTINUE-FLAG:define:generate_do_while"
